@@ -29,7 +29,7 @@ ASSUMPTIONS = ["non-negative integer arguments only", "balances left above capac
                "an exception raised by the on_state_change collaborator is the caller's own: that call's return value is not "
                "judged, the ledger clauses (nothing created, limits respected, charge is 0 or exactly the cost) still are"]
 EXPECT_PROBES = ("nadh_topup", "debt_taken", "gated", "clamped", "zero_capacity", "debt_with_topup", "nadh_debt",
-                 "interest_applied", "transfer_ok", "callback_raised")
+                 "interest_applied", "transfer_ok", "callback_raised", "interest_allowance_reset_after_repayment")
 
 CUR = {"atp": EnergyType.ATP, "gtp": EnergyType.GTP, "nadh": EnergyType.NADH}
 
@@ -70,6 +70,18 @@ def gen(rng, tier, i):
             ops.append(["convert", s, _amount(rng)])
         else:
             ops.append([kind, s])
+    if rng.random() < 0.12:
+        # in-flight state first: borrow to the limit, let interest accrue, repay in full, then probe the credit line again
+        stores[0]["max_debt"] = rng.choice([10, 30, 50])
+        stores[0]["interest"] = rng.choice([0.5, 1.0])
+        stores[0]["budget"] = rng.choice([5, 10, 20])
+        cycle = []
+        for _ in range(rng.randint(1, 3)):
+            cycle += [["consume", 0, ["room", 0], "atp", True, rng.choice([0, 5, 10])]]
+            cycle += [["interest", 0] for _ in range(rng.randint(1, 2))]
+            cycle += [["regenerate", 0, ["abs", rng.choice([50, 200])], "atp"] for _ in range(rng.randint(1, 2))]
+        cycle += [["consume", 0, ["room", rng.choice([1, 5, 10])], "atp", True, rng.choice([0, 5, 10])]]
+        ops = ops[:rng.randint(0, 2)] + cycle + ops[-rng.randint(0, 2):]
     return {"config": {"stores": stores}, "ops": ops}
 
 
@@ -163,6 +175,11 @@ def run(plan, k):
         name, s = op[0], op[1]
         st, cfg = stores[s], cfgs[s]
         b0 = [_bals(x) for x in stores]
+        # "interest aside": only interest charged since the debt was last fully repaid can explain debt above the limit
+        for si in range(2):
+            if b0[si][3] == 0 and interest[si]:
+                interest[si] = 0
+                k.probe("interest_allowance_reset_after_repayment")
         W0 = sum(_w(b) for b in b0)
         state0 = st.get_state().name
         if name == "consume":
